@@ -31,10 +31,16 @@ contract(F + "ShuffleContinuumSampler._remove_pivot_segment",
                                    "not zone(x) and old(segments)[i].start <= x and x <= old(segments)[i].end, cover(new_segments, x)))",
                                    name="all-kept-points"),
                                 "forall(i, 0, len(new_segments), new_segments[i].start <= new_segments[i].end)"])},
-         hooks=[("after", "new_segments.append(segment)",
-                 "assert forall([(x, Real)], implies(segment.start <= x and x <= segment.end, cover(new_segments, x)))"),
-                ("after", "new_segments.append(Segment(pivot + dist, segment.end))",
-                 "assert forall([(x, Real)], implies(pivot + dist <= x and x <= segment.end, cover(new_segments, x)))"),
-                ("after", "new_segments.append(Segment(segment.start, pivot - dist))",
-                 "assert forall([(x, Real)], implies(segment.start <= x and x <= pivot - dist, cover(new_segments, x)))")],
+         hooks=[
+             # witnesses for the existential `cover`: what was covered stays covered after an append, and the appended
+             # piece is covered
+             ("before", "new_segments.append(segment)", "NSB = new_segments"),
+             ("after", "new_segments.append(segment)",
+              "assert forall([(x, Real)], implies(cover(NSB, x) or (segment.start <= x and x <= segment.end), cover(new_segments, x)))"),
+             ("before", "new_segments.append(Segment(pivot + dist, segment.end))", "NSC = new_segments"),
+             ("after", "new_segments.append(Segment(pivot + dist, segment.end))",
+              "assert forall([(x, Real)], implies(cover(NSC, x) or (pivot + dist <= x and x <= segment.end), cover(new_segments, x)))"),
+             ("before", "new_segments.append(Segment(segment.start, pivot - dist))", "NSD = new_segments"),
+             ("after", "new_segments.append(Segment(segment.start, pivot - dist))",
+              "assert forall([(x, Real)], implies(cover(NSD, x) or (segment.start <= x and x <= pivot - dist), cover(new_segments, x)))")],
          serves={"C16"})
